@@ -219,10 +219,55 @@ fn gen_per_element() -> BoxedStrategy<Value> {
     per_element_cases(rules::rooted(cfg), prop_oneof![2 => gen::data_docs(), 1 => gen::texts(8).prop_map(gen::j)].boxed())
 }
 
+
+// sizes around 2^8, 2^12, 2^16 (common::SIZE_EDGES): a narrowed length type or a fixed buffer bites exactly there
+const KINDS: u64 = 8;
+fn check_sizes(case: &Value, obs: &mut Obs) -> Result<(), String> {
+    let n = case["n"].as_u64().unwrap_or(1) as usize;
+    let k = case["k"].as_u64().unwrap_or(0);
+    let s = sized_string(n);
+    let data = json!({"s": s});
+    let vs = json!({"var": "s"});
+    let ni = n as i64;
+    let (rule, data) = match k {
+        0 => (json!({"substr": [vs, ni - 1]}), data),
+        1 => (json!({"substr": [s, -1]}), Value::Null),
+        2 => (json!({"substr": [vs, 1, -1]}), data),
+        3 => (json!({"cat": [{"substr": [vs.clone(), 0, ni - 1]}, {"substr": [vs, ni - 1]}]}), data),
+        4 => (json!({"cat": [vs, "x", 1]}), data),
+        5 => (json!({"cat": vec![json!("a"); n]}), Value::Null),
+        6 => (json!({"cat": [sized_array(n)]}), Value::Null),
+        _ => (json!({"substr": [vs, -ni, ni]}), data),
+    };
+    size_case(&rule, &data, obs, &format!("size kind {} n {}", k, if n < 1000 { "~2^8" } else if n < 10000 { "~2^12" } else { "~2^16" }))
+}
+
+fn fixed_sizes() -> Vec<Value> {
+    let mut out = vec![];
+    for n in SIZE_EDGES {
+        for k in 0..KINDS {
+            out.push(json!({"n": n, "k": k}));
+        }
+    }
+    out
+}
+
 pub fn property() -> Property {
     Property {
         id: "C16",
         subs: vec![
+            Sub {
+                name: "size_boundaries",
+                about: "strings of exactly 255 / 256 / 257, 4095 / 4096 / 4097 and 65535 / 65536 / 65537 characters (1- to 4-byte characters mixed) through substr (last character by positive and negative start, all but the ends, the whole by negative start, the split law) and cat (string + suffix, n operands, an n-element array), against the reference model: a length kept in a narrower type or a fixed buffer bites exactly at these sizes.",
+                nontrivial: "every case.",
+                strategy: None,
+                fixed: Some(fixed_sizes),
+                fixed_exhaustive: true,
+                check: check_sizes,
+                quick: 0,
+                thorough: 0,
+                small_stack: false,
+            },
             Sub {
                 name: "fuzz_corpus_replay",
                 about: "every committed corpus input and saved artifact of the libFuzzer target fz_str - one application of cat / substr whose operands are written by the fuzzer as text lines (a line that parses as JSON is that value, any other line is a raw string such as ` 0x1F ` or `12px`; operands literal or through var) - replayed through the target's own body against the reference model; the committed corpus is the coverage-distinct set distilled from campaigns on the unchanged tree, so each input reaches a different piece of the implementation. The thorough tier additionally runs the coverage-guided campaign.",
